@@ -208,7 +208,7 @@ static std::string backend_request(int b,std::vector<std::string> const &ops)
 			long long age = atoll(attrs.c_str()+ma+8);
 			if(age == 0) del = true; else { e.session = false; e.exp = (long long)g_now + age; }
 		}
-		if(del) { jar.erase(name); continue; }
+		if(del) { note_deletion(name); jar.erase(name); continue; }
 		jar[name] = e;
 		if(name == PREFIX) {
 			bool seen = false;
